@@ -146,6 +146,8 @@ struct RunCfg {
     threads: usize,
     mode: Mode,
     delay_seed: Option<u64>,
+    /// the destination already exists and is much longer than the result
+    stale_output: bool,
 }
 
 struct Outcome {
@@ -175,6 +177,10 @@ fn run_fst(bin: &Path, dir: &Path, inp: &Input, cfg: &RunCfg, extra_env: &[(Stri
     }
     let out = dir.join("out.fst");
     let trace = dir.join("trace.txt");
+    if cfg.stale_output {
+        // --force must replace an existing (longer) destination file completely
+        std::fs::write(&out, vec![0xABu8; 300_000]).unwrap();
+    }
     let mut cmd = if wrapper.is_empty() {
         Command::new(bin)
     } else {
@@ -381,6 +387,7 @@ fn judge(inp: &Input, cfg: &RunCfg, o: &Outcome, ev: &mut Ev, trees: &mut HashSe
             ("fd_limit", J::U(cfg.fd as u64)),
             ("threads", J::U(cfg.threads as u64)),
             ("delay_seed", cfg.delay_seed.map(J::U).unwrap_or(J::Null)),
+            ("destination_existed_and_was_longer", J::Bool(cfg.stale_output)),
         ])
     };
     if o.timed_out {
@@ -391,6 +398,9 @@ fn judge(inp: &Input, cfg: &RunCfg, o: &Outcome, ev: &mut Ev, trees: &mut HashSe
     ev.distinct_extra += 1;
     ev.count("runs");
     ev.count(&format!("runs:mode={:?}", cfg.mode));
+    if cfg.stale_output {
+        ev.count("runs:overwriting-a-longer-existing-output");
+    }
     if o.status != Some(0) {
         ev.violate("exit-status", format!("fst exited with {:?}: {}", o.status, o.stderr.lines().last().unwrap_or("")), descr());
         return;
@@ -504,7 +514,7 @@ pub fn run(ctx: &Ctx) -> i32 {
                     if big && *b < 7 {
                         continue;
                     }
-                    plan.push((ii, RunCfg { batch: *b, fd: fds[(ii + mi + bi) % 3], threads: ths[(ii + bi) % 4], mode: *m, delay_seed: Some(rng.next() % 1_000_000) }));
+                    plan.push((ii, RunCfg { batch: *b, fd: fds[(ii + mi + bi) % 3], threads: ths[(ii + bi) % 4], mode: *m, delay_seed: Some(rng.next() % 1_000_000), stale_output: (ii + mi + bi) % 4 == 0 }));
                 }
             }
         }
@@ -512,7 +522,7 @@ pub fn run(ctx: &Ctx) -> i32 {
             let ii = rng.usize(ins.len());
             let big = ins[ii].files.iter().map(|f| f.len()).sum::<usize>() > 1000;
             let b = if big { *rng.pick(&[7usize, 50, 1000, 1_000_000]) } else { *rng.pick(&batches) };
-            plan.push((ii, RunCfg { batch: b, fd: *rng.pick(&fds), threads: *rng.pick(&ths), mode: *rng.pick(&modes), delay_seed: if rng.chance(1, 8) { None } else { Some(rng.next() % 1_000_000) } }));
+            plan.push((ii, RunCfg { batch: b, fd: *rng.pick(&fds), threads: *rng.pick(&ths), mode: *rng.pick(&modes), delay_seed: if rng.chance(1, 8) { None } else { Some(rng.next() % 1_000_000) }, stale_output: false }));
         }
     }
     let nplan = plan.len();
@@ -558,7 +568,7 @@ pub fn run(ctx: &Ctx) -> i32 {
         let ii = 1; // no-repeats-500
         let mut local = HashSet::new();
         for s in 0..ctx.tier.pick(24, 200) {
-            let cfg = RunCfg { batch: 7, fd: 3, threads: 5, mode: Mode::Sum, delay_seed: Some(ctx.seed * 1000 + s) };
+            let cfg = RunCfg { batch: 7, fd: 3, threads: 5, mode: Mode::Sum, delay_seed: Some(ctx.seed * 1000 + s), stale_output: false };
             let o = run_fst(&bin, &scratch.join("seeds"), &ins[ii], &cfg, &[], &[]);
             let (tree, _, _, _, _) = merge_tree(&o.trace);
             local.insert(tree);
@@ -579,7 +589,7 @@ pub fn run(ctx: &Ctx) -> i32 {
         let n = ctx.tier.pick(12, 200);
         for r in 0..n {
             let ii = rng.usize(ins.len() - 1);
-            let cfg = RunCfg { batch: *rng.pick(&[1usize, 2, 3, 7]), fd: *rng.pick(&[2usize, 3]), threads: *rng.pick(&[2usize, 5, 16]), mode: *rng.pick(&[Mode::Set, Mode::Sum, Mode::Min]), delay_seed: Some(r as u64) };
+            let cfg = RunCfg { batch: *rng.pick(&[1usize, 2, 3, 7]), fd: *rng.pick(&[2usize, 3]), threads: *rng.pick(&[2usize, 5, 16]), mode: *rng.pick(&[Mode::Set, Mode::Sum, Mode::Min]), delay_seed: Some(r as u64), stale_output: false };
             let env = vec![("TSAN_OPTIONS".to_string(), format!("halt_on_error=0 exitcode=0 log_path={}/tsan", logdir.display()))];
             let o = run_fst(&tsan, &dir, &ins[ii], &cfg, &env, &[]);
             ev.count("tsan:runs");
@@ -598,7 +608,7 @@ pub fn run(ctx: &Ctx) -> i32 {
         let mut rng = Rng::new(ctx.seed, 0x3e3c);
         for r in 0..ctx.tier.pick(2, 30) {
             let ii = [0usize, 2, 3, 4, 7][r % 5];
-            let cfg = RunCfg { batch: *rng.pick(&[2usize, 7]), fd: 2, threads: 2, mode: *rng.pick(&[Mode::Set, Mode::Sum, Mode::Max]), delay_seed: None };
+            let cfg = RunCfg { batch: *rng.pick(&[2usize, 7]), fd: 2, threads: 2, mode: *rng.pick(&[Mode::Set, Mode::Sum, Mode::Max]), delay_seed: None, stale_output: false };
             let wrapper: Vec<String> = vec!["valgrind".into(), "--tool=memcheck".into(), "--error-exitcode=0".into(), "-q".into(), format!("--log-file={}/memcheck.%p", logdir.display())];
             let o = run_fst(&bin, &dir, &ins[ii], &cfg, &[], &wrapper);
             ev.count("memcheck:runs");
@@ -622,9 +632,9 @@ pub fn run(ctx: &Ctx) -> i32 {
         ev,
         Spec {
             level: "exploration",
-            rule: "one evaluation = one run of the real `fst set|map` binary (unsorted mode) as a subprocess with seeded 0-2 ms delays injected at channel send/receive and around batch construction (hook H4): exit status 0, output opens and verify()s, keys == distinct input keys, every value == sum/max/min over ALL rows of its key, and for inputs without repeated keys the output bytes equal a sorted library build; the H4 batch trace is parsed into the merge tree (which leaf batches met in which union, per generation) and the worker assignment, and an offline conservation checker runs over it and records anomalies as evidence without judging them (the leaf batches together hold between #distinct keys and #rows rows, every intermediate file produced once and consumed by exactly one union, exactly one unconsumed result); inputs: 14 shapes (no repeats, repeats far apart, adjacent repeats incl. identical rows, three input files, five input files of which three are empty, one row, empty, five keys x 200 rows, all identical rows, sorted, reverse sorted, 3000 (thorough 10^5) rows with 30% repeats) x batch sizes {1,2,3,7,all} x fd-limit {2,3,15} x threads {1,2,5,16} x {set,sum,max,min}: a systematic core (every input x mode x batch size) plus random combinations; one fixed configuration is repeated under 24 (200) delay seeds to count how many distinct merge trees scheduling alone produces; thorough adds ThreadSanitizer-instrumented and valgrind-memcheck runs; non-trivial = every run; distinct_nontrivial counts runs (distinct parameter/seed combinations) plus distinct merge trees",
+            rule: "one evaluation = one run of the real `fst set|map` binary (unsorted mode) as a subprocess with seeded 0-2 ms delays injected at channel send/receive and around batch construction (hook H4): exit status 0, output opens and verify()s, keys == distinct input keys, every value == sum/max/min over ALL rows of its key, and for inputs without repeated keys the output bytes equal a sorted library build; the H4 batch trace is parsed into the merge tree (which leaf batches met in which union, per generation) and the worker assignment, and an offline conservation checker runs over it and records anomalies as evidence without judging them (the leaf batches together hold between #distinct keys and #rows rows, every intermediate file produced once and consumed by exactly one union, exactly one unconsumed result); inputs: 14 shapes (no repeats, repeats far apart, adjacent repeats incl. identical rows, three input files, five input files of which three are empty, one row, empty, five keys x 200 rows, all identical rows, sorted, reverse sorted, 3000 (thorough 10^5) rows with 30% repeats) x batch sizes {1,2,3,7,all} x fd-limit {2,3,15} x threads {1,2,5,16} x {set,sum,max,min}, a quarter of the runs overwriting an existing longer destination file (--force): a systematic core (every input x mode x batch size) plus random combinations; one fixed configuration is repeated under 24 (200) delay seeds to count how many distinct merge trees scheduling alone produces; thorough adds ThreadSanitizer-instrumented and valgrind-memcheck runs; non-trivial = every run; distinct_nontrivial counts runs (distinct parameter/seed combinations) plus distinct merge trees",
             assumptions: vec!["keys are [a-z0-9]{1,12} (no CSV quoting, no empty lines), values < 2^32 so sums cannot overflow; fd-limit 1 is excluded as in the statement".into(), "interleavings are sampled, not enumerated: the evidence reports how many distinct groupings were actually observed".into(), "a subprocess hitting the 120 s watchdog is inconclusive, never a violation".into()],
-            floors: vec![("runs", 200), ("runs:mode=Set", 20), ("runs:mode=Sum", 20), ("runs:mode=Max", 20), ("runs:mode=Min", 20), ("runs:no-repeat-inputs-compared-bytewise", 20), ("trace:union-batches", 100), ("max:union-generations", 2), ("distinct-merge-trees-observed", 20), ("trace:conservation-checked", 200)],
+            floors: vec![("runs", 200), ("runs:mode=Set", 20), ("runs:mode=Sum", 20), ("runs:mode=Max", 20), ("runs:mode=Min", 20), ("runs:no-repeat-inputs-compared-bytewise", 20), ("trace:union-batches", 100), ("max:union-generations", 2), ("distinct-merge-trees-observed", 20), ("trace:conservation-checked", 200), ("runs:overwriting-a-longer-existing-output", 20)],
             exhaustive: Some(false),
         },
     )
